@@ -27,6 +27,9 @@ PROTOCOL_PARSERS = [
     "winter_crypto::merkle::MerkleTree::<H>::verify_batch",
     "winter_verifier::verify",
     DESER + "::read_from_bytes",
+    # every Air::new must build its context from the proof-supplied TraceInfo / ProofOptions
+    "winter_air::air::context::AirContext::<B>::new",
+    "winter_air::air::context::AirContext::<B>::new_multi_segment",
 ]
 
 
@@ -52,7 +55,8 @@ def make_stop(prog):
             return True
         if k.startswith(("winter_crypto::hash::", "<winter_crypto::hash::")) and not decoder_scope(k):
             return True
-        if k.startswith(("winter_math::fft::", "<[E] as winter_math::fft::", "<[[E; N]] as winter_math::fft::")):
+        if k.startswith(("winter_math::fft::", "<[E] as winter_math::fft::", "<[[E; N]] as winter_math::fft::",
+                         "winter_math::polynom::", "winter_math::utils::")):
             return True
         # code whose inputs come from the user's Air implementation (assertions, degrees, periodic
         # columns): entered only up to the calls that carry proof-supplied values
